@@ -803,10 +803,7 @@ func shrink(o CheckOpts, scen string, index int, choices []uint32, v Violation) 
 	}
 	deadline := time.Now().Add(budget)
 	var bestRes *RunResult
-	fails := func(c []uint32) bool {
-		if time.Now().After(deadline) || cl.runs > 3000 {
-			return false
-		}
+	check := func(c []uint32) bool {
 		res, died := cl.try(scen, o.Tier, index, c)
 		if died || res == nil {
 			return false
@@ -817,8 +814,14 @@ func shrink(o CheckOpts, scen string, index int, choices []uint32, v Violation) 
 		}
 		return false
 	}
+	fails := func(c []uint32) bool {
+		if time.Now().After(deadline) || cl.runs > 3000 {
+			return false
+		}
+		return check(c)
+	}
 	best := trimZeros(append([]uint32(nil), choices...))
-	if !fails(best) {
+	if !check(best) {
 		return nil, nil, cl.runs
 	}
 	// 1. shortest failing prefix
@@ -900,7 +903,7 @@ func shrink(o CheckOpts, scen string, index int, choices []uint32, v Violation) 
 		}
 	}
 	// final confirmation gives the result to report
-	if !func() bool { deadline = time.Now().Add(2 * time.Minute); return fails(best) }() {
+	if !check(best) {
 		return nil, nil, cl.runs
 	}
 	return best, bestRes, cl.runs
